@@ -364,7 +364,11 @@ func (r *Run) Rapid(t *testing.T, test string, checks int, prop func(rt *rapid.T
 		return
 	}
 	flag.Set("rapid.checks", strconv.Itoa(checks))
-	flag.Set("rapid.seed", strconv.FormatUint(r.Seed^hash64(test)&0xffffffff|1, 10))
+	seed := (r.Seed*0x9E3779B97F4A7C15 ^ hash64(test)) >> 1 // distinct per (VERIF_SEED, shard, test)
+	if seed == 0 {
+		seed = 1 // rapid treats 0 as "random"
+	}
+	flag.Set("rapid.seed", strconv.FormatUint(seed, 10))
 	flag.Set("rapid.nofailfile", "true")
 	if os.Getenv("VERIF_SHRINKTIME") != "" {
 		flag.Set("rapid.shrinktime", os.Getenv("VERIF_SHRINKTIME"))
